@@ -94,8 +94,7 @@ def _run_cia(inst, res):
         res['status'] = INCONCLUSIVE
         res['notes'].append(ex.status)
         return
-    res['obligations'] += 1
-    res['discharged'] += int(ex.exhaustive())
+    require_exhaustive(res, ex)
     vs = [z3.Int(nm) for nm in names]
     for p in ex.paths:
         res['obligations'] += 1
